@@ -33,6 +33,19 @@ def gen_cases(tier, seed):
         grid = pairwise[::2] + rnd.sample(others, min(8, len(others)))
     else:
         grid = grid[::4]
+    # rounds that carry a feed/biofuel charge together with the resilient foods whose use in feed and biofuel is limited to a
+    # share of those charges: the place where a charge enters a constraint with a positive sign
+    rnd = random.Random(1250 + seed)
+    isos = workload.all_isos()
+    big = ["USA", "IDN", "CHN", "BRA", "ARG", "FRA", "IND", "RUS", "CAN", "AUS"]
+    for k in range(8 if tier == "quick" else 80):
+        iso = big[(k + seed) % len(big)] if k % 2 == 0 else rnd.choice(isos)
+        o = workload.base_country(scenario=["all_resilient_foods", "industrial_foods", "methane_scp", "cellulosic_sugar", "seaweed", "all_resilient_foods_and_more_area"][(k + seed) % 6],
+                                  shutoff=["continued_after_10_percent_fed", "continued", "long_delayed_shutoff_after_10_percent_fed", "long_delayed_shutoff"][(k // 2 + seed) % 4],
+                                  intake_constraints=["enabled", "enabled", "disabled_for_humans"][k % 3], NMONTHS=rnd.choice([120, 72]))
+        grid.append(workload.pipeline_case(iso, o, "charged_resilient%d" % k))
+        grid[-1]["id"] = "%s/charged_resilient#%d" % (iso, k)
+        grid[-1]["many_charge_months"] = True
     for c in grid:
         c["gen_seed"] = seed
     return grid
@@ -75,7 +88,7 @@ def set_meat(c, t, sl):
     c["meat_summed_consumption"] = float(np.sum(sl))
 
 
-def perturbations(c, t, rnd):
+def perturbations(c, t, rnd, many_months=False):
     """yield (name, kind, mutate(c2, t2)) ; kind in {'more', 'less', 'scale'}"""
     N = c["NMONTHS"]
     m = rnd.randrange(N)
@@ -149,6 +162,22 @@ def perturbations(c, t, rnd):
             t2["biofuel"].kcals = np.asarray(t2["biofuel"].kcals, float) * 1.05
 
         out.append(("biofuel_charge:+5%", "less", bio))
+    # additive charge increases (a charge of zero stays zero under a factor): one month by 20 % of monthly needs, every month by 2 %
+    needs = float(c["inputs"]["POP"]) * float(c["inputs"]["NUTRITION"]["KCALS_DAILY"]) * 30.0 / 1e9
+    months = sorted(rnd.sample(range(N), 6 if many_months else 1))
+    for key in ("feed", "biofuel"):
+        for m2 in months:
+            def add_one(c2, t2, key=key, m2=m2):
+                a = np.asarray(t2[key].kcals, float).copy()
+                a[m2] += 0.2 * needs
+                t2[key].kcals = a
+
+            out.append(("%s_charge:month%d+20%%_of_needs" % (key, m2), "less", add_one))
+
+        def add_all(c2, t2, key=key):
+            t2[key].kcals = np.asarray(t2[key].kcals, float) + 0.02 * needs
+
+        out.append(("%s_charge:all_months+2%%_of_needs" % key, "less", add_all))
     for k in (1e-3, 0.1, 7.0, 1e3):
         if not (3e5 <= c["POP"] * k <= 1e10):
             continue
@@ -196,7 +225,7 @@ def run_case(case, tier):
             viol.append({"mech": "solver_returns_suboptimal_point:base", "msg": "%s round %d: CBC reports %.8g, the same model solved by HiGHS gives %.8g" % (case["iso"], k + 1, z0, zh0),
                          "data": {"iso": case["iso"], "round": k + 1, "family": "base"}})
         tolh = TOL_H * max(1.0, abs(zh0)) if zh0 is not None else None
-        for name, kind, mutate in perturbations(c0, t0, rnd):
+        for name, kind, mutate in perturbations(c0, t0, rnd, many_months=bool(case.get("many_charge_months")) and float(np.sum(t0["feed"].kcals) + np.sum(t0["biofuel"].kcals)) > 0):
             c2, t2 = copy.deepcopy(c0), copy.deepcopy(t0)
             mutate(c2, t2)
             z = solve(copy.deepcopy(c2), copy.deepcopy(t2))
